@@ -90,7 +90,7 @@ func runC05(c *eng.Ctx, tier string) {
 					addSrc(x, "decrypted database")
 				}
 				if eng.CalleeIs(&x.Call, "encoding/json", "Marshal") {
-					if _, al, ok := eng.LiteralFields(eng.Origin(x.Call.Args[0])); ok && al != nil && eng.IsNamed(al.Type(), "db", "persist") {
+					if _, al, ok := eng.LiteralFields(eng.Origin(x.Call.Args[0])); ok && al != nil && eng.IsNamed(al.Type(), "db", dbTypeName(c.P, "persist")) {
 						addSrc(x, "marshalled plaintext database")
 					}
 				}
@@ -156,7 +156,7 @@ func runC05(c *eng.Ctx, tier string) {
 
 	// R-C05-2
 	c03SaveContentRule(c, k, "R-C05-2")
-	if w := p.Named("db", "wrapped"); w != nil {
+	if w := p.Named("db", dbTypeName(c.P, "wrapped")); w != nil {
 		got := eng.JSONShape(w)
 		c.Check(got == sv1Wrapped, "R-C05-2", nil, w.Obj().Pos(), "fields of the on-disk wrapper", sv1Wrapped+" and nothing else (no plaintext index, no names)", "computed "+got)
 	}
@@ -249,7 +249,7 @@ func c05Open(c *eng.Ctx, k *kvAnalysis) {
 				}
 			case *ssa.If:
 				if _, xx, _, ok := eng.CondOf(x.Cond, true).Cmp(); ok {
-					if fr, _, isF := eng.LoadedField(xx); isF && fr.Is("db", "wrapped", "Version") {
+					if fr, _, isF := eng.LoadedField(xx); isF && fr.Is("db", dbTypeName(c.P, "wrapped"), "Version") {
 						verIf = x
 					}
 				}
@@ -272,21 +272,25 @@ func c05Open(c *eng.Ctx, k *kvAnalysis) {
 		// versions fed to the contexts are the checked wrapped.Version
 		for _, call := range []*ssa.Call{readKS, decrypt} {
 			ctxArg := call.Call.Args[len(call.Call.Args)-1]
-			cc, _ := eng.TupleCall(ctxArg)
-			okCtx := false
-			if cc != nil {
-				if fr, _, isF := eng.LoadedField(cc.Call.Args[0]); isF && fr.Is("db", "wrapped", "Version") {
-					// the version was tested before (possibly before the helper holding this call was entered)
+			// the context evaluates to text with the version as its only
+			// variable part: the schema constant, or the stored version after
+			// it was tested (possibly before the helper holding this call was entered)
+			tmpl, vars, okT := eng.StrTemplate(ctxArg)
+			okCtx := okT && tmpl != ""
+			for _, vv := range vars {
+				fr, _, isF := eng.LoadedField(eng.OriginX(vv))
+				tested := false
+				if isF && fr.Is("db", dbTypeName(c.P, "wrapped"), "Version") {
 					for _, cond := range eng.FactsX(call) {
 						if _, xx, _, isCmp := cond.Cmp(); isCmp && verIf != nil {
-							if fr2, _, isF2 := eng.LoadedField(xx); isF2 && fr2.Is("db", "wrapped", "Version") {
-								okCtx = true
+							if fr2, _, isF2 := eng.LoadedField(xx); isF2 && fr2.Is("db", dbTypeName(c.P, "wrapped"), "Version") {
+								tested = true
 							}
 						}
 					}
 				}
-				if _, isK := eng.ConstInt(cc.Call.Args[0]); isK {
-					okCtx = true
+				if !tested {
+					okCtx = false
 				}
 			}
 			c.Check(okCtx && !eng.IsNilConst(eng.Origin(ctxArg)), "R-C05-4", f, call.Pos(), "associated data of "+eng.CallStr(&call.Call), "non-nil context built from the schema version that was checked first", "")
@@ -317,7 +321,7 @@ func c05Open(c *eng.Ctx, k *kvAnalysis) {
 					}
 				}
 				if op, xx, yy, isCmp := cond.Cmp(); isCmp && op == token.EQL {
-					if fr, _, isF := eng.LoadedField(xx); isF && fr.Is("db", "wrapped", "Version") {
+					if fr, _, isF := eng.LoadedField(xx); isF && fr.Is("db", dbTypeName(c.P, "wrapped"), "Version") {
 						if kk, isK := eng.ConstInt(yy); isK && kk == schemaConst(c) {
 							okVer = true
 						}
@@ -343,8 +347,10 @@ func c05Open(c *eng.Ctx, k *kvAnalysis) {
 			}
 			ctxArg := call.Call.Args[len(call.Call.Args)-1]
 			cc, _ := eng.TupleCall(ctxArg)
-			okk := cc != nil && (eng.CalleeIs(&cc.Call, "db", "aeadContextDB") || eng.CalleeIs(&cc.Call, "db", "aeadContextDEK"))
-			c.Check(okk, "R-C05-4", f, in.Pos(), "associated data of "+eng.CallStr(&call.Call), "a context from aeadContextDB / aeadContextDEK (never nil)", "")
+			_ = cc
+			tmpl, _, okT := eng.StrTemplate(ctxArg)
+			okk := okT && (strings.HasPrefix(tmpl, "setec database v") || strings.HasPrefix(tmpl, "setec DEK v"))
+			c.Check(okk, "R-C05-4", f, in.Pos(), "associated data of "+eng.CallStr(&call.Call), "a non-empty context naming the object and the schema version (\"setec database v..\" / \"setec DEK v..\")", "evaluates to \""+tmpl+"\"")
 		})
 	}
 	c.Floor("R-C05-4", 4)
